@@ -63,6 +63,7 @@ class Facts:
         self.impls = []
         self.formats = []
         self.crates = []
+        self.inlined = {}
         for fn in sorted(os.listdir(directory)):
             if not fn.endswith('.json'):
                 continue
@@ -91,7 +92,10 @@ class Facts:
 
     # ---- lookup helpers
     def body(self, path):
-        return self.bodies.get(path)
+        b = self.bodies.get(path)
+        if b is None and getattr(self, 'inlined', None):
+            b = self.inlined.get(path)      # a helper spliced into its callers (inline.py)
+        return b
 
     def nested(self, path):
         """`path` and every body nested in it (closures, coroutines), outermost first."""
